@@ -16,6 +16,7 @@ import (
 
 	"verif/enum"
 	"verif/ev"
+	"verif/pre"
 )
 
 const M = ^uint32(0)
@@ -69,7 +70,7 @@ func newRing(c rcase, now time.Time, cache bool) *ring.Ring {
 	if err != nil {
 		panic(err)
 	}
-	r.VerifUpdateRingState(c.desc(now))
+	pre.Install(r, c.desc(now), now) // on top of earlier versions of itself (see package pre)
 	return r
 }
 
